@@ -1795,6 +1795,26 @@ class Scenario:
                     if len(distinct_new(self.fails)) >= 3:
                         return
 
+    def beside_sweep(self):
+        """every other kind copied beside itself under a new name with ids kept: the destination already holds an entity
+        with the id (and the content) of the source - again generated directly"""
+        rng = self.rng
+        sf = rng.choice([0, 1])
+        cands = candidates(self.files[sf])
+        for kind in ("property", "section", "data_frame", "block"):
+            if not cands[kind]:
+                continue
+            src, owner = rng.choice(cands[kind])
+            parent = owner if owner is not None else self.files[sf]
+            if kind == "section" and owner is not None and rng.random() < 0.5:
+                continue
+            self.last = None
+            self.handles = {"source_handle": "plain (owning container, by iteration)", "dest_handle": "plain"}
+            self.count("beside-sweep")
+            self.copy_trial(kind, sf, sf, src, owner, parent, "beside%d-%s" % (len(self.log), kind), True, True)
+            if len(distinct_new(self.fails)) >= 3:
+                return
+
     def still_there(self, kind, ent, owner, fi):
         """the handle still stands for a live entity of its container (it may have been deleted since)"""
         try:
@@ -2416,6 +2436,7 @@ def oracle(ctx, broken, hints):
         try:
             if k < 2:
                 sc.link_sweep()
+                sc.beside_sweep()
             for j in range(trials):
                 sc.trial(force_kind=kinds[j % len(kinds)] if j < len(kinds) else None)
                 if len(distinct_new(sc.fails)) >= 3 or (j >= 7 and time.time() > t_end):
